@@ -273,6 +273,50 @@ pub fn k_c22_zero_iff_value_sequence2x4() {
     vreach!("C22.boundary.sequence2x4.reach");
 }
 
+// the inverse-twiddle cache passed to BoundaryConstraint::new is shared by all assertions of an AIR: two sequence
+// assertions with different numbers of values prepared one after the other (in both orders) must each get
+// the twiddles of their own length
+//# harness: fn=BoundaryConstraint::new (shared twiddle cache, sequence assertions of 4 and 2 values), evaluate_at; label=closed(F_17, trace length 8; fixed asserted values, both preparation orders, every asserted step); tier=quick; props=C22; uses=covers,domain_point; timeout=900
+#[cfg_attr(kani, kani::proof)]
+#[cfg_attr(kani, kani::unwind(12))]
+#[cfg_attr(kani, kani::stub(alloc::fmt::format, vs::fake_format))]
+pub fn k_c22_shared_twiddle_cache() {
+    let inv_g = Tiny::get_root_of_unity(3).inv();
+    let a4 = Assertion::sequence(0, 1, 2, alloc::vec![Tiny(3), Tiny(9), Tiny(14), Tiny(6)]);
+    let a2 = Assertion::sequence(1, 2, 4, alloc::vec![Tiny(5), Tiny(12)]);
+    let mut order = 0;
+    while order < 2 {
+        let mut twiddles = BTreeMap::new();
+        let (c4, c2) = if order == 0 {
+            let c4 = BoundaryConstraint::<Tiny, Tiny>::new(a4.clone(), inv_g, &mut twiddles, Tiny::ONE);
+            let c2 = BoundaryConstraint::<Tiny, Tiny>::new(a2.clone(), inv_g, &mut twiddles, Tiny::ONE);
+            (c4, c2)
+        } else {
+            let c2 = BoundaryConstraint::<Tiny, Tiny>::new(a2.clone(), inv_g, &mut twiddles, Tiny::ONE);
+            let c4 = BoundaryConstraint::<Tiny, Tiny>::new(a4.clone(), inv_g, &mut twiddles, Tiny::ONE);
+            (c4, c2)
+        };
+        let mut ok = true;
+        let mut k = 0;
+        while k < 4 {
+            let s = 1 + 2 * k;
+            ok = ok && c4.evaluate_at(domain_point(s), a4.values[k]) == Tiny::ZERO
+                && c4.evaluate_at(domain_point(s), a4.values[k] + Tiny::ONE) != Tiny::ZERO;
+            k += 1;
+        }
+        k = 0;
+        while k < 2 {
+            let s = 2 + 4 * k;
+            ok = ok && c2.evaluate_at(domain_point(s), a2.values[k]) == Tiny::ZERO
+                && c2.evaluate_at(domain_point(s), a2.values[k] + Tiny::ONE) != Tiny::ZERO;
+            k += 1;
+        }
+        vcheck!("C22.boundary_constraint.shared_twiddle_cache_zero_iff_value", ok);
+        order += 1;
+    }
+    vreach!("C22.shared_cache.reach");
+}
+
 /// two assertions that tie on (stride, first step) and differ only in their column, listed in both
 /// orders: the prepared (natural) order must be the same and sorted by column
 fn order_independent(a0: Assertion<Tiny>, a1: Assertion<Tiny>) {
